@@ -24,9 +24,10 @@ import WcModel.Proofs.GlobSplitShape
                            `@(a/[b`, was defect D30: repaired, see `D30_fixed_witness`)
     * `split_absolute`     the first part is the drive ⇔ the pattern starts with `/`
       `split_noabsolute`   with `_NOABSOLUTE` a successful split has no drive part at all
-    * `split_adjacent_globstar`  two adjacent globstars only as  base part :: pattern-initial
-                           globstar  (MATCHBASE/_EXTMATCHBASE) — the exception is REAL,
-                           `adjacent_globstar_witness` (known defect D6's shape)
+    * `split_adjacent_globstar`  two adjacent parts are NEVER both globstars (the former
+                           exception  base part :: pattern-initial globstar  under
+                           MATCHBASE/_EXTMATCHBASE was the RGLOBSTAR defect: repaired, see
+                           `adjacent_globstar_fixed_witness`)
     * `split_nonempty_src` a part with a predecessor has non-empty text, except directly after
                            the base part — the exception is REAL, `empty_after_base_witness`
     * `split_base_only`    MATCHBASE / `_EXTMATCHBASE` change NOTHING in the split but the base
@@ -83,8 +84,7 @@ theorem split_src_head (f : Flags) (isBytes : Bool) (p : List Char) (parts : Lis
 
 theorem split_adjacent_globstar (f : Flags) (isBytes : Bool) (p : List Char) (parts : List GPart)
     (h : globSplit f isBytes p = .ok parts) :
-    ∀ pre a b post, parts = pre ++ a :: b :: post → a.isGlobstar = true → b.isGlobstar = true →
-      pre = [] ∧ a = basePart (SplitCfg.ofFlags f isBytes) ∧ (f.extmatchbase = true ∨ f.matchbase = true) :=
+    ∀ pre a b post, parts = pre ++ a :: b :: post → a.isGlobstar = true → b.isGlobstar = true → False :=
   globSplit_adjacent_globstar f isBytes p parts h
 
 theorem split_nonempty_src (f : Flags) (isBytes : Bool) (p : List Char) (parts : List GPart)
@@ -257,13 +257,23 @@ def summary (q : GPart) : PSum := ⟨q.pat.src, q.isMagic, q.isGlobstar, q.isGlo
 def splitSummary (f : Flags) (p : String) : Option (List PSum) :=
   (globSplit f false p.toList).toOption.map (List.map summary)
 
-/-- **the adjacent-globstar exception is real** (D6's shape on the walker side):
-    `_GlobSplit('**', MATCHBASE|GLOBSTAR).split()` = base `**` followed by the pattern's own `**` -/
-theorem adjacent_globstar_witness :
+/-- RGLOBSTAR (repaired by a `fix:` commit): `_GlobSplit.split` used to put the implicit
+    MATCHBASE / `_EXTMATCHBASE` globstar in front of a pattern that itself begins with a globstar
+    (`_GlobSplit('**', MATCHBASE|GLOBSTAR).split()` = base `**` followed by the pattern's own
+    `**`); the walker then used the second one as a name matcher (`Path.rglob('**/f')` yielded
+    `b/f` through a symlinked directory `b`).  The part is now inserted only if the pattern does
+    not already start with a globstar; this witness fails again if the defect returns. -/
+theorem adjacent_globstar_fixed_witness :
     splitSummary { matchbase := true, globstar := true } "**" =
-      some [⟨"**".toList, true, true, false, true, false⟩, ⟨"**".toList, true, true, false, false, false⟩] ∧
+      some [⟨"**".toList, true, true, false, false, false⟩] ∧
     splitSummary { extmatchbase := true, globstar := true } "**/a" =
-      some [⟨"**".toList, true, true, false, true, false⟩, ⟨"**".toList, true, true, false, true, false⟩,
+      some [⟨"**".toList, true, true, false, true, false⟩,
+            ⟨"a".toList, false, false, false, false, false⟩] ∧
+    splitSummary { extmatchbase := true, globstar := true, globstarlong := true, follow := true } "**/a" =
+      some [⟨"**".toList, true, true, false, true, false⟩,
+            ⟨"a".toList, false, false, false, false, false⟩] ∧
+    splitSummary { extmatchbase := true, globstar := true } "a" =
+      some [⟨"**".toList, true, true, false, true, false⟩,
             ⟨"a".toList, false, false, false, false, false⟩] := by decide +kernel
 
 /-- the prefix of MATCHBASE is a PART (`**`, put in front of a one-part pattern), never a piece of
@@ -353,8 +363,7 @@ example : ∃ parts, globSplit { globstar := true, extmatch := true } false "/a/
       have := (split_nonempty_src _ _ _ _ h pre a b post hp hb).2.2
       rcases this with h1 | h1 <;> cases h1
     · rintro ⟨ha, hb⟩
-      have := (split_adjacent_globstar _ _ _ _ h pre a b post hp ha hb).2.2
-      rcases this with h1 | h1 <;> cases h1
+      exact split_adjacent_globstar _ _ _ _ h pre a b post hp ha hb
 
 /-- non-vacuity of `C05_main_split`: the pattern `a/b` (split by `globSplit`, not written by
     hand) on the tree `tOk` satisfies every remaining hypothesis -/
